@@ -3,10 +3,10 @@ from engines.simoracle import run_case
 from vlib.core import bad, ok
 
 
-def make_execute(clauses, nontrivial, allow_labels=None):
+def make_execute(clauses, nontrivial, prop=None):
     """``nontrivial(labels, sim)`` -> bool"""
     def execute(case):
-        sig, detail, labels, sim = run_case(case, set(clauses))
+        sig, detail, labels, sim = run_case(case, set(clauses), prop=prop)
         nt = bool(nontrivial(labels, sim))
         lbs = sorted(labels)
         if sig:
